@@ -2,7 +2,7 @@
 import ast
 
 from vstat.loader import AnalysisError
-from vstat.terms import builder, show, SELF, NONE, G, alts, walk, mentions, phi, strip_none
+from vstat.terms import builder, CMP, ordered, show, SELF, NONE, G, alts, walk, mentions, phi, strip_none
 from vstat.guards import path_conditions, exception_name
 from vstat.cfg import cfg_of, EXIT
 from . import c06, c10, c12, c13
@@ -140,7 +140,7 @@ def run(prog, rep):
     row(rep, prog, "unknown-keys", q, "ValueError",
         lambda pc: any(nonempty_of(l, lambda X: mentions(X, ("attr", SELF, "_dist_description_keys"))) for l in pc),
         "a description with unknown keys")
-    hierarchy(prog, rep)
+    rep.part(hierarchy, prog, rep)
     # the checks run before any distribution is constructed
     c = Ctx(prog, f"{GHM}.__init__")
     rep.analysed(c.fn)
@@ -168,7 +168,7 @@ def run(prog, rep):
     q = f"{GHM}._check_and_fill_fit_desc"
     fdp = P("fit_descriptions")
     row(rep, prog, "fit-descriptions-length", q, "ValueError",
-        lambda pc: ("not", ("cmp", "==", ("call", G("len"), (fdp,), ()), ("attr", SELF, "n_dim"))) in pc, "fit_descriptions of the wrong length",
+        lambda pc: ("not", CMP("==", ("call", G("len"), (fdp,), ()), ("attr", SELF, "n_dim"))) in pc, "fit_descriptions of the wrong length",
         anchors=lambda c: loops(c))
     row(rep, prog, "missing-method", q, "ValueError",
         lambda pc: any(l[0] == "not" and l[1][0] == "cmp" and l[1][1] == "in" and l[1][2] == ("const", "method") and l[1][3][0] == "sub" and l[1][3][1] == fdp for l in pc),
@@ -176,8 +176,8 @@ def run(prog, rep):
     q = f"{GHM}.fit"
     data = ("call", G("numpy.array"), (P("data"),), ())
     row(rep, prog, "data-dimension", q, "ValueError",
-        lambda pc: ("not", ("cmp", "==", ("sub", ("attr", data, "shape"), ("const", -1)), ("attr", SELF, "n_dim"))) in pc
-        or ("not", ("cmp", "==", ("sub", ("attr", data, "shape"), ("const", 1)), ("attr", SELF, "n_dim"))) in pc,
+        lambda pc: ("not", CMP("==", ("sub", ("attr", data, "shape"), ("const", -1)), ("attr", SELF, "n_dim"))) in pc
+        or ("not", CMP("==", ("sub", ("attr", data, "shape"), ("const", 1)), ("attr", SELF, "n_dim"))) in pc,
         "data whose number of columns differs from the model dimension", anchors=lambda c: loops(c))
     c = Ctx(prog, q)
     calls = stmts_calling(c, "_check_and_fill_fit_desc")
@@ -190,7 +190,7 @@ def run(prog, rep):
     for what in ("limits", "deltas"):
         v = ("attr", SELF, what)
         row(rep, prog, f"{what}-length", q, "ValueError",
-            lambda pc, v=v: ("not", ("cmp", "==", ("call", G("len"), (v,), ()), nd)) in pc, f"{what} whose length differs from n_dim")
+            lambda pc, v=v: ("not", CMP("==", ("call", G("len"), (v,), ()), nd)) in pc, f"{what} whose length differs from n_dim")
     c = Ctx(prog, f"{CT}.HighestDensityContour.__init__")
     rep.analysed(c.fn)
     g = stmts_calling(c, "_check_grid")
@@ -211,7 +211,7 @@ def run(prog, rep):
     # 2-D only contours
     for cls in ("DirectSamplingContour", "AndContour", "OrContour"):
         q = f"{CT}.{cls}._compute"
-        row(rep, prog, "not-2d", q, "NotImplementedError", lambda pc: ("not", ("cmp", "==", nd, ("const", 2))) in pc,
+        row(rep, prog, "not-2d", q, "NotImplementedError", lambda pc: ("not", CMP("==", nd, ("const", 2))) in pc,
             f"{cls} on a model that is not two-dimensional",
             anchors=lambda c: stmts_calling(c, "draw_sample") + stmts_calling(c, "marginal_icdf") + loops(c))
     q = f"{CT}.IFORMContour.__init__"
@@ -235,7 +235,7 @@ def run(prog, rep):
         lambda pc: ("not", ("call", G("callable"), (P("reference"),), ())) in pc, "a non-callable reference for PointsPerIntervalSlicer",
         anchors=lambda c: [st for st in c.cfg.all_stmts() if isinstance(st, ast.Assign) and isinstance(st.targets[0], ast.Attribute) and st.targets[0].attr == "reference"])
     # rows shared with other properties' rules
-    shared(prog, rep)
+    rep.part(shared, prog, rep)
     rep.expect_min("C18.guard", 27)
     rep.expect_min("C18.hierarchy", 7)
     rep.expect_min("C18.shared", 20)
